@@ -140,7 +140,7 @@ impl Prop for C09 {
             f.push(Family::new(
                 "read-month-names",
                 Mode::Full,
-                "every configured month name (long and short, all synonyms) of every language x lower/Capitalised/UPPER case x every spelling the language's date patterns admit ('d Mon y', 'd Mon', and in English 'Mon d y', 'Mon d, y') x days x years [2020, 1999, current year by default]",
+                "every configured month name (long and short, all synonyms) of every language x lower/Capitalised/UPPER case x every spelling the language's date patterns admit ('d Mon y', 'd Mon', and in English 'Mon d y', 'Mon d, y') x days x years [2020, 1999, and 5, 20, 28, 31 - years that are also valid days of a month; current year by default]",
                 move |ch| {
                     let l = ch.pick(&langs).clone();
                     let m = 1 + ch.choose(12) as i64;
@@ -150,7 +150,7 @@ impl Prop for C09 {
                     let nforms = if l == "en" { 4 } else { 2 };
                     let form = ch.choose(nforms);
                     let d = *ch.pick(&days);
-                    let y = *ch.pick(&[2020i64, 1999]);
+                    let y = *ch.pick(&[2020i64, 1999, 5, 20, 28, 31]);
                     let mname = recase(&name, how);
                     let (text, year) = match form {
                         0 => (format!("{} {} {}", d, mname, y), y),
@@ -165,6 +165,33 @@ impl Prop for C09 {
                         return Some(LineCase::new(text, Expect::NotKind("date".into()), "reject-name").with_lang(&l));
                     }
                     Some(LineCase::new(text, Expect::Value(date_val((year, m, d)), 0.0), "read-name").with_lang(&l))
+                },
+            ));
+        }
+        // printing under default zones ---------------------------------------------------------
+        {
+            let t = |n: &str| *spec().zones.get(n).unwrap_or(&0);
+            let zones: Vec<(Option<&'static str>, String, i32)> = vec![(None, "UTC".into(), 0), (Some("CET"), "CET".into(), t("CET")), (Some("EST"), "EST".into(), t("EST")), (Some("GMT-11"), "GMT-11".into(), -660), (Some("GMT+14"), "GMT+14".into(), 840)];
+            f.push(Family::new(
+                "print-under-zones",
+                Mode::Full,
+                "d/m/y, 'd Month y' and 'd/m/y + 3 days' for every month x days [1, 15, last] x years [2021, 1999] under default zones [UTC, CET, EST, GMT-11, GMT+14] (English): the value is that calendar date and it is printed as that calendar date ('d Mon y'), whatever the default zone is",
+                move |ch| {
+                    const SHORT: [&str; 12] = ["Jan", "Feb", "Mar", "Apr", "May", "Jun", "Jul", "Aug", "Sep", "Oct", "Nov", "Dec"];
+                    let (tz, label, off) = ch.pick(&zones).clone();
+                    let y = *ch.pick(&[2021i64, 1999]);
+                    let m = 1 + ch.choose(12) as i64;
+                    let d = *ch.pick(&[1, 15, cal::days_in_month(y, m)]);
+                    let form = ch.choose(3);
+                    let (text, shown) = match form {
+                        0 => (format!("{}/{}/{}", d, m, y), (y, m, d)),
+                        1 => (format!("{} {} {}", d, month_names("en", m)[0], y), (y, m, d)),
+                        _ => (format!("{}/{}/{} + 3 days", d, m, y), cal::add_days((y, m, d), 3)),
+                    };
+                    let val = Val::Date { y: shown.0 as i32, m: shown.1 as u32, d: shown.2 as u32, zone: label.clone(), off };
+                    let out = format!("{} {} {}", shown.2, SHORT[(shown.1 - 1) as usize], shown.0);
+                    let cfg = crate::runner::Cfg { tz: tz.map(|s| s.to_string()), ..Default::default() };
+                    Some(LineCase::new(text, Expect::ValueOut(val, out, 0.0), "print-zone").with_cfg(cfg))
                 },
             ));
         }
